@@ -69,6 +69,40 @@ def mentions(t, sub) -> bool:
     return any(s == sub for s in T.subterms(t))
 
 
+def exact_option_rule(ctx, rule="C03.sign"):
+    repo = ctx.repo
+    # ---- log_prob is a function of the point: no stochastic estimator is switched on for the flow's log-determinant.  Frozen API fact (zuko):
+    #      a continuous flow built with exact=False estimates the trace with random probes (Hutchinson), so two evaluations at one point differ and the
+    #      log-density returned with a draw is not log_prob at that draw.  Only the constant True (or leaving the library default, True) is accepted.
+    n_ex, bad_ex = 0, []
+    for f_ in repo.all_functions():
+        if not f_.ident.startswith("aspire.flows"):
+            continue
+        for n_ in walk_no_nested(f_.node):
+            v_ = None
+            if isinstance(n_, ast.keyword) and n_.arg == "exact":
+                v_ = n_.value
+            elif isinstance(n_, ast.Call) and isinstance(n_.func, ast.Attribute) and n_.func.attr in ("setdefault", "update", "get") and n_.args \
+                    and isinstance(n_.args[0], ast.Constant) and n_.args[0].value == "exact" and len(n_.args) > 1:
+                v_ = n_.args[1]
+            elif isinstance(n_, ast.Dict):
+                for k_, val_ in zip(n_.keys, n_.values):
+                    if isinstance(k_, ast.Constant) and k_.value == "exact":
+                        v_ = val_
+            elif isinstance(n_, ast.Assign) and any(isinstance(t_, ast.Subscript) and isinstance(t_.slice, ast.Constant) and t_.slice.value == "exact" for t_ in n_.targets):
+                v_ = n_.value
+            if v_ is None:
+                continue
+            n_ex += 1
+            if not (isinstance(v_, ast.Constant) and v_.value is True):
+                bad_ex.append((f_, n_, v_))
+    ctx.count("exact_option_sites", n_ex)
+    ctx.decide(not bad_ex, rule, "aspire.flows", loc_of(bad_ex[0][0], bad_ex[0][1]) if bad_ex else "src/aspire/flows",
+               "no flow is built with a stochastic log-determinant estimator (exact is never set to anything but True)",
+               (f"{bad_ex[0][0].ident} sets the flow option exact = {ast.unparse(bad_ex[0][2])[:40]}: whenever that is not True the continuous flow estimates its log-determinant with random "
+                "probes, log_prob is no longer a function of the point, and the log-density returned with a draw differs from log_prob evaluated at it") if bad_ex else "", disc="exact")
+
+
 def run(ctx):
     repo = ctx.repo
     from . import cachecoh
@@ -247,36 +281,7 @@ def run(ctx):
                    f"FlowTransform hands periodic_parameters={ast.unparse(pv_)[:50] if pv_ is not None else 'nothing'} to the composite transform: a parameter declared periodic is then wrapped "
                    "modulo its range instead of being mapped to the real line, a many-to-one step with zero Jacobian -- the log-density returned with a folded draw is that of the unfolded point, "
                    "and the proposal integrates to less than one over the declared space", disc="no-periodic")
-    # ---- log_prob is a function of the point: no stochastic estimator is switched on for the flow's log-determinant.  Frozen API fact (zuko):
-    #      a continuous flow built with exact=False estimates the trace with random probes (Hutchinson), so two evaluations at one point differ and the
-    #      log-density returned with a draw is not log_prob at that draw.  Only the constant True (or leaving the library default, True) is accepted.
-    n_ex, bad_ex = 0, []
-    for f_ in repo.all_functions():
-        if not f_.ident.startswith("aspire.flows"):
-            continue
-        for n_ in walk_no_nested(f_.node):
-            v_ = None
-            if isinstance(n_, ast.keyword) and n_.arg == "exact":
-                v_ = n_.value
-            elif isinstance(n_, ast.Call) and isinstance(n_.func, ast.Attribute) and n_.func.attr in ("setdefault", "update", "get") and n_.args \
-                    and isinstance(n_.args[0], ast.Constant) and n_.args[0].value == "exact" and len(n_.args) > 1:
-                v_ = n_.args[1]
-            elif isinstance(n_, ast.Dict):
-                for k_, val_ in zip(n_.keys, n_.values):
-                    if isinstance(k_, ast.Constant) and k_.value == "exact":
-                        v_ = val_
-            elif isinstance(n_, ast.Assign) and any(isinstance(t_, ast.Subscript) and isinstance(t_.slice, ast.Constant) and t_.slice.value == "exact" for t_ in n_.targets):
-                v_ = n_.value
-            if v_ is None:
-                continue
-            n_ex += 1
-            if not (isinstance(v_, ast.Constant) and v_.value is True):
-                bad_ex.append((f_, n_, v_))
-    ctx.count("exact_option_sites", n_ex)
-    ctx.decide(not bad_ex, "C03.sign", "aspire.flows", loc_of(bad_ex[0][0], bad_ex[0][1]) if bad_ex else "src/aspire/flows",
-               "no flow is built with a stochastic log-determinant estimator (exact is never set to anything but True)",
-               (f"{bad_ex[0][0].ident} sets the flow option exact = {ast.unparse(bad_ex[0][2])[:40]}: whenever that is not True the continuous flow estimates its log-determinant with random "
-                "probes, log_prob is no longer a function of the point, and the log-density returned with a draw differs from log_prob evaluated at it") if bad_ex else "", disc="exact")
+    exact_option_rule(ctx)
     from . import c13 as _c13
     reuse(ctx, _c13.run, ("C13.flow", "C13.nomut"), "C03rt", "flow round-trip rules shared with C13: a proposal that loses its data transform, its weights or a constructor option on "
           "save / load / re-save evaluates log_prob on a different density than the one its stored draws and log_q values came from")
